@@ -104,7 +104,11 @@ func (e *c09Env) close() {
 func c09Prelude(env container.Environment, kind string) error {
 	var s probe.Script
 	o := sandboxOpts{Script: &s, Env: env, Tag: newTag(), Timeout: 20 * time.Second}
-	defer killTagged(o.Tag)
+	if kind != "orphans" && kind != "orphans-many" {
+		// (not after the orphan preludes: the scan of /proc takes milliseconds, and the point of those is that the next
+		// run follows at once; whatever survives them carries the check's tag and is swept by the driver)
+		defer killTagged(o.Tag)
+	}
 	switch kind {
 	case "refuse-after", "refuse-before":
 		s.Add("sleep:100000")
@@ -127,7 +131,8 @@ func c09Prelude(env container.Environment, kind string) error {
 			s.Add("fork{")
 			s.Add("sigign")
 			if kind == "orphans-many" {
-				s.Add("touch:2") // an address space worth tearing down: killing and reaping 150 of them takes the init milliseconds
+				s.Sys(sysNr["close"], 3) // not a holder of the report pipe: the host does not wait for their death
+				s.Add("touch:6")         // an address space worth tearing down: killing and reaping 150 of them takes the init milliseconds
 			}
 			s.Add("sleep:100000")
 			s.Add("}")
